@@ -18,20 +18,28 @@ import common
 from common import Broken, Violation
 
 MANIFEST = {
-    "text": "18 theorems over all instants of years 1..9999 (Z microseconds), the three precisions and two constraints, about "
-            "a hand-written Gallina model of format_datetime/parse_into_datetime/strptime: canonical shape with 4-digit year "
-            "(full for the zero-padding variant, refuted with year 999 for the unpadded strftime variant), the text read by an "
-            "independent strict reader denotes exactly floor(t) to the precision unit (never rounds), digit-count rules, the "
-            "library's own reader reads the text back as floor(t), write-read-write fixed point, monotonicity of the denoted "
-            "instants, datetime/date/string inputs are written as the text of their UTC instant (whole-second offsets), "
-            "and the civil-calendar round trip for every day number in Z.",
-    "design_ref": "DESIGN.md 6/C15",
-    "note": "Trusted: Coq kernel + vm_compute; the hand model is tied to /repo by a correspondence run on every check "
-            "(boundary-biased datetimes, dates, UTC offsets, timestamp strings incl. lenient spellings and near-misses); "
-            "CPython datetime/strptime/strftime are modelled, not verified. No axioms. UTC offsets that are not a whole "
-            "number of seconds (constructible only by hand with datetime.timezone(timedelta(microseconds=..)); no tz "
-            "database has them) are outside the theorems (Props/C15.v subsecond_offset_excluded shows why) and outside the oracle.",
-    "technique": "Coq proof over a hand-written executable model + per-run correspondence with the implementation",
+    "text": "19 theorems (Props/C15.v) over all instants of years 1..9999 (Z microseconds), the three precisions and two "
+            "constraints, about a hand-written Gallina model of format_datetime/parse_into_datetime/strptime: canonical shape "
+            "with 4-digit year (full for the zero-padding variant, refuted with year 999 for the unpadded strftime variant), the "
+            "text read by an independent strict reader denotes exactly floor(t) to the precision unit (never rounds), digit-count "
+            "rules, injectivity, the library's own reader reads the text back as floor(t), write-read-write fixed point, "
+            "monotonicity of the denoted instants, datetime/date/string inputs are written as the text of their UTC instant "
+            "(whole-second offsets; both naive-datetime variants), and the civil-calendar round trip for every day number in Z. "
+            "5 source-text obligations (Props/C15Src.v): the precision branches of format_datetime and the truncation branches of "
+            "parse_into_datetime, translated from the ast on every run into programs of a small interpreted language "
+            "(Model/PyTs.v), are the programs the model mirrors and compute frac_digits / stored_trunc for every input.",
+    "design_ref": "DESIGN.md 6/C15; design_notes/C15-C05.md",
+    "note": "Trusted: Coq kernel + vm_compute; translators/tr_timestamp_src.py (fail-closed ast translator); the hand model is tied "
+            "to /repo by a correspondence run on every check (boundary-biased datetimes, dates, fixed and zoneinfo (variable, DST, "
+            "fold) UTC offsets, timestamp strings incl. lenient spellings and near-misses, STIXdatetime values re-used across "
+            "precisions, values copied/deep-copied/pickled between cleaning and writing); quick: ~15 k cases through vm_compute; "
+            "thorough: ~1 M cases through the model extracted to OCaml (extract/c15) with a 20 k sample also through vm_compute. "
+            "CPython datetime/zoneinfo/strptime/strftime are modelled or used as given, not verified: zone conversion itself is "
+            "outside the model (it starts from local fields + the true offset computed by the harness). Oracle-only: nothing; "
+            "every oracle check has a theorem counterpart. Assumed: UTC offsets are whole seconds (sub-second offsets, "
+            "constructible only by hand, are generated for the correspondence but outside theorems and oracle: "
+            "subsecond_offset_excluded shows why); rejected strings (7+ fraction digits) are outside 'accepted strings'. No axioms.",
+    "technique": "Coq proof over a hand-written executable model + source-text translation of the digit logic + per-run correspondence with the implementation",
 }
 
 PC = [("any", "exact"), ("any", "min"), ("second", "exact"), ("second", "min"), ("millisecond", "exact"), ("millisecond", "min")]
